@@ -288,11 +288,23 @@ def run(ctx: Any, prog: Program) -> None:
     # game lump directory: GameLump.ST == '<4s HH' + '<ii' pieces written by save
     st_fmt = fold.fold(bsp.class_assign('GameLump', 'ST'), {})
     pieces_l = []
+
+    def _fmt_of(e: ast.AST) -> Optional[str]:
+        try:
+            v = fold.fold(e, {})
+        except Exception:
+            return None
+        v = getattr(v, 'fmt', v)
+        return v if isinstance(v, str) else None
     for n in walk_no_nested(sv):
-        if isinstance(n, ast.Call) and dotted(n.func) == 'struct.pack' and n.args and isinstance(n.args[0], ast.Constant) and '4s' in str(n.args[0].value):
-            pieces_l.append((n.lineno, n.args[0].value))
-        if isinstance(n, ast.Call) and dotted(n.func) == 'defer.defer' and len(n.args) >= 2 and dotted(n.args[0]) == 'game_lump.id' and isinstance(n.args[1], ast.Constant):
-            pieces_l.append((n.lineno, n.args[1].value))
+        if isinstance(n, ast.Call) and dotted(n.func) == 'struct.pack' and n.args:
+            f_ = _fmt_of(n.args[0])
+            if f_ is not None and '4s' in f_ and any(isinstance(x, ast.Name) and x.id == 'game_lump' for a in n.args[1:] for x in ast.walk(a)):
+                pieces_l.append((n.lineno, f_))
+        if isinstance(n, ast.Call) and dotted(n.func) == 'defer.defer' and len(n.args) >= 2 and dotted(n.args[0]) == 'game_lump.id':
+            f_ = _fmt_of(n.args[1])
+            if f_ is not None:
+                pieces_l.append((n.lineno, f_))
     pieces = [v for _, v in sorted(pieces_l)]
     joined = ''.join(p.replace('<', '').replace(' ', '') for p in pieces)
     ctx.check('C10.B4', joined == st_fmt.fmt.replace('<', '').replace(' ', ''), bsp, sv, f'game-lump directory entry: save() writes {pieces} but read() unpacks GameLump.ST = {st_fmt.fmt!r}',
